@@ -24,7 +24,10 @@ use hvcommon::{Value, json};
 
 struct Sched {
     wakes: Vec<(u8, u32, bool)>, // point, occurrence, fired
-    counts: [u32; 10],
+    /// wake2: wake i is a producer's send instead of a raw wake_by_ref
+    pushes: Vec<bool>,
+    tx: Option<tokio_sender::Tx>,
+    counts: [u32; 11],
     log: Vec<Value>,
     waker: Option<Waker>,
 }
@@ -54,10 +57,16 @@ fn point(p: u8) {
         for i in &fire {
             sc.log.push(json!(["w", i]));
         }
-        (fire.len(), sc.waker.clone())
+        let kinds: Vec<bool> = fire.iter().map(|i| sc.pushes.get(*i).copied().unwrap_or(false)).collect();
+        (kinds, (sc.waker.clone(), sc.tx.clone()))
     });
-    for _ in 0..to_fire {
-        waker.as_ref().unwrap().wake_by_ref();
+    for is_push in to_fire {
+        if is_push {
+            // a producer's send: tokio enqueues and wakes the waker the receiver registered
+            let _ = waker.1.as_ref().unwrap().send(1);
+        } else {
+            waker.0.as_ref().unwrap().wake_by_ref();
+        }
     }
 }
 
@@ -134,14 +143,68 @@ pub fn run_wake(case: &Value) -> Value {
     let ctx = Context::default();
     let ext_waker = ctx.waker();
     SCHED.with(|s| {
-        *s.borrow_mut() = Some(Sched { wakes, counts: [0; 10], log: Vec::new(), waker: Some(ext_waker) })
+        *s.borrow_mut() = Some(Sched { wakes, pushes: Vec::new(), tx: None, counts: [0; 11], log: Vec::new(), waker: Some(ext_waker) })
     });
+    execute(case, Dfir::new(CountTick, ctx, None, None))
+}
+
+/// wake2: the tick body polls a real tokio channel with `Context::waker()` until Pending, as
+/// `source_stream` does (which registers the WakeState waker with the channel), and, on the
+/// ticks listed in "defers", calls `schedule_subgraph(true)` as the generated code does when a
+/// non-lazy defer_tick buffer holds data.  Point 10 = after the source poll, inside the body.
+struct SourceTick {
+    rx: tokio_sender::Rx,
+    ticks: u64,
+    defers: Vec<u64>,
+}
+impl TickClosure for SourceTick {
+    fn call_tick<'a>(&'a mut self, ctx: &'a mut Context) -> impl Future<Output = bool> + 'a {
+        use futures::Stream;
+        let w = ctx.waker();
+        let mut cx = TaskContext::from_waker(&w);
+        let mut n = 0u64;
+        while let Poll::Ready(Some(_)) = std::pin::Pin::new(&mut self.rx).poll_next(&mut cx) {
+            n += 1;
+        }
+        SCHED.with(|s| s.borrow_mut().as_mut().unwrap().log.push(json!(["t", n])));
+        point(10);
+        if self.defers.contains(&self.ticks) {
+            SCHED.with(|s| s.borrow_mut().as_mut().unwrap().log.push(json!(["d"])));
+            ctx.schedule_subgraph(true);
+        }
+        self.ticks += 1;
+        std::future::ready(false)
+    }
+}
+
+mod tokio_sender {
+    pub type Tx = tokio::sync::mpsc::UnboundedSender<u32>;
+    pub type Rx = tokio_stream::wrappers::UnboundedReceiverStream<u32>;
+}
+
+pub fn run_wake2(case: &Value) -> Value {
+    let acts = case["acts"].as_array().unwrap();
+    let wakes: Vec<(u8, u32, bool)> =
+        acts.iter().map(|w| (w[0].as_u64().unwrap() as u8, w[1].as_u64().unwrap() as u32, false)).collect();
+    let pushes: Vec<bool> = acts.iter().map(|w| w[2].as_str() == Some("push")).collect();
+    let defers: Vec<u64> = case["defers"].as_array().unwrap().iter().map(|x| x.as_u64().unwrap()).collect();
+    let (tx, rx) = dfir_rs::util::unbounded_channel::<u32>();
+    let ctx = Context::default();
+    let ext_waker = ctx.waker();
+    SCHED.with(|s| {
+        *s.borrow_mut() =
+            Some(Sched { wakes, pushes, tx: Some(tx), counts: [0; 11], log: Vec::new(), waker: Some(ext_waker) })
+    });
+    execute(case, Dfir::new(SourceTick { rx, ticks: 0, defers }, ctx, None, None))
+}
+
+fn execute<T: TickClosure + 'static>(case: &Value, dfir: Dfir<T>) -> Value {
+    // the Dfir is leaked into the boxed future so that the task can live in a thread local
+    let df: &'static mut Dfir<T> = Box::leak(Box::new(dfir));
     INLINE.with(|i| i.set(case["inline"].as_bool().unwrap_or(false)));
     WOKEN.with(|w| w.set(false));
     POLLING.with(|p| p.set(false));
     verif::set_hook(point);
-    // the Dfir is leaked into the boxed future so that the task can live in a thread local
-    let df: &'static mut Dfir<CountTick> = Box::leak(Box::new(Dfir::new(CountTick, ctx, None, None)));
     EXEC.with(|e| {
         let mut e = e.borrow_mut();
         e.fut = Some(Box::pin(df.run()));
@@ -166,6 +229,9 @@ pub fn run_wake(case: &Value) -> Value {
         SCHED.with(|s| s.borrow_mut().as_mut().unwrap().log.push(json!(["park"])));
         break;
     }
+    // from here on nothing may drive the runner any more (dropping the channel's sender wakes
+    // the waker the receiver registered)
+    INLINE.with(|i| i.set(false));
     EXEC.with(|e| e.borrow_mut().fut = None);
     verif::set_hook(|_| {});
     let sc = SCHED.with(|s| s.borrow_mut().take().unwrap());
